@@ -18,6 +18,7 @@ CONSTANTS
   UseAccounts2 = FALSE
   UseSelf = TRUE
   FundAcct2 = FALSE
+  UseBuild = FALSE
   UseDiverge = FALSE
   UseAdv = FALSE
 SPECIFICATION Spec
